@@ -185,8 +185,17 @@ def _wrap_mpr():
         return r
 
     def iterate(v, v1, v2, sd, size):
+        before2 = v[2].copy()
         r = o_iter(v, v1, v2, sd, size)
         bump("discover_iter_done" if r[1] == 4 else "discover_iter_continue")
+        if r[1] != 4:
+            # which of the two replacement arms was taken (observed: the row that now holds the new point v[3])
+            if np.array_equal(v[2], v[3]) and not np.array_equal(before2, v[3]):
+                bump("discover_iter_replace_v2")
+            elif np.array_equal(v[1], v[3]):
+                bump("discover_iter_replace_v1")
+            else:
+                bump("discover_iter_replace_unknown")
         return r
 
     def origin_ray(portal, c1, c2):
